@@ -329,9 +329,25 @@ def _main(mod, pid, a, seed, t0):
         if n_shards == 1:
             results = [_shard(jobs[0])]
         else:
+            # watchdog: a shard stuck in uninterruptible C code (a catastrophic regex match inside a
+            # generator, say) must not hang the check: after the time cap plus a grace period the pool is
+            # torn down and the run is reported as inconclusive (never as a violation)
             mp = multiprocessing.get_context("fork")
-            with mp.Pool(min(n_shards, os.cpu_count() or 1)) as pool:
-                results = pool.map(_shard, jobs, chunksize=1)
+            pool = mp.Pool(min(n_shards, os.cpu_count() or 1))
+            deadline = time.time() + 2 * time_cap + 2 * shrink_cap + 60
+            try:
+                it = pool.imap_unordered(_shard, jobs, chunksize=1)
+                for _ in jobs:
+                    try:
+                        results.append(it.next(timeout=max(1.0, deadline - time.time())))
+                    except multiprocessing.TimeoutError:
+                        timed_out = True
+                        print(f"note: {len(jobs) - len(results)} shard(s) did not finish within the watchdog "
+                              f"limit and were abandoned (inconclusive, not a violation)")
+                        break
+            finally:
+                pool.terminate()
+                pool.join()
         for r in results:
             if r["error"]:
                 raise HarnessError(f"shard {r['shard']}: {r['error']}")
